@@ -57,7 +57,7 @@ Section safety.
     | Fail _ => False
     end.
   Proof.
-    intros Hinv. destruct l as [w t srcs| |ev|w|[[d src] tgt]|[d src]|[h d]]; simpl.
+    intros Hinv. destruct l as [w t srcs| |ev|w i|[[d src] tgt]|[d src]|[h d]]; simpl.
     - (* LAssign *)
       destruct (assign_c J E (ctl s) w t srcs) as [[c h]| |e|e] eqn:Ha; try done.
       + case_bool_decide as Hwq.
@@ -90,13 +90,14 @@ Section safety.
       destruct (list_remove ev (pool s)) as [ps|] eqn:Hrm; [|done].
       pose proof (list_remove_in _ _ _ Hrm) as Hin.
       destruct ev as [w d|h d|d v]; simpl.
-      + destruct (i_pub _ _ _ Hinv _ _ Hin) as (Hfin & Hout & Htask & Hl & h & Hh & Hst). rewrite Hh.
+      + destruct (i_pub _ _ _ Hinv _ _ Hin) as (Hfin & Hout & Htask & Hl0 & h & Hh & Hst). rewrite Hh.
+        assert (Hl : d = last_out J d.1 → d.1 ∈ ong (ctl s) w) by (intros Heq; by destruct (Hl0 Heq)).
         destruct (deliver_pub_pool s w d ps Hinv Hrm) as (Hsub & Hn1 & Hn2 & Hlast & Hpk & Hyk).
         case_bool_decide as Hlo.
         * (* last output: publication, then completion *)
           specialize (Hl Hlo).
           assert (Hinv1 : Inv J E {| ctl := publish_c J (ctl s) h d; store := store s; wq := wq s; xfers := xfers s;
-                     fetches := fetches s; purges := purges s; pool := pool s; dispatched := dispatched s; finished := finished s |}).
+                     fetches := fetches s; purges := purges s; pool := pool s; dispatched := dispatched s; finished := finished s; published := published s |}).
           { apply inv_publish; auto. apply (i_pub_nodup _ _ _ Hinv). apply (i_pay_nodup _ _ _ Hinv). }
           assert (Hseenlast : d ∈ seen (publish_c J (ctl s) h d)).
           { destruct (publish_fields J (ctl s) h d) as (_&_&_&_&_&_&_&_&_&Ese&_). rewrite Ese. set_solver. }
@@ -118,13 +119,15 @@ Section safety.
         destruct (deliver_xfer_pool s h d ps Hinv Hrm) as (Hsub & Hn1 & Hn2 & Hlast & Hpk & Hyk).
         apply inv_publish; auto.
       + by apply inv_pay.
-    - (* LFinish *)
+    - (* LPublish *)
       destruct (wq s !! w) as [t|] eqn:Hw; [|done]. destruct (e_host E !! w) as [h|] eqn:Hh; [|done].
-      case_bool_decide as Hins; [|done]. simpl. case_bool_decide as Houts; simpl.
-      + by apply inv_finish.
-      + apply Houts. intros d Hd Hst. destruct (i_wq _ _ _ Hinv _ _ Hw) as (_ & _ & _ & Hnf).
-        pose proof (i_store_fin _ _ _ Hinv _ _ Hst) as Hf. apply outs_spec in Hd as [Hd1 _].
-        destruct d as [a b]; simpl in *; subst; done.
+      case_bool_decide as Hins; [|done]. simpl.
+      match goal with |- context [if negb ?b then _ else _] => destruct b eqn:Hc end; simpl; [|done].
+      apply andb_prop in Hc as [Hc Hpre]. apply andb_prop in Hc as [Hout Hnp].
+      apply bool_decide_eq_true in Hout, Hnp, Hpre.
+      case_bool_decide as Hst.
+      + apply Hnp. by apply (i_store_pub _ _ _ Hinv h).
+      + by apply (inv_pubstep J E wf_nout s w t h (t, i)).
     - (* LXfer *)
       destruct (list_remove (d, src, tgt) (xfers s)) as [xs|] eqn:Hrm; [|done].
       pose proof (list_remove_in _ _ _ Hrm) as Hin.
